@@ -61,9 +61,15 @@ def generate(rng, tier):
         else:
             rx = rng.choice(REGEXES) if rng.random() < 0.8 else b""
             cases.append({"kind": "module", "entries": [e.hex() for e in es], "regex": rx.hex()})
-    # connections attempted by the real clients (dcat: one attempt per entry; dtail: reconnects after a dropped connection)
+    # server files that are not regular files: a named pipe (--servers <(cmd)), a symbolic link
+    for i in range(6 if tier == "quick" else 100):
+        es = _entries(rng, rng.choice([1, 2, 3, 8]))
+        cases.append({"kind": "file", "server": (b"\n".join(es) + b"\n").hex(), "fifo": i % 2 == 0, "symlink": i % 2 == 1})
+    # connections attempted by the real clients (dcat: one attempt per entry; dtail: reconnects after a dropped connection;
+    # more failing servers than connection-throttle slots: every one is still contacted)
     cases.append({"kind": "attempts", "n": 0, "tool": "dcat", "listed": 3, "seconds": 4})
     cases.append({"kind": "attempts", "n": 1, "tool": "dtail", "listed": 2, "seconds": 6})
+    cases.append({"kind": "attempts", "n": 2, "tool": "dcat", "listed": (os.cpu_count() or 8) + 5, "seconds": 12, "cpc": 1})
     return cases
 
 
@@ -95,6 +101,8 @@ def _attempts(c):
     open(os.path.join(env.dir, "f.log"), "w").write("x\n")
     cmd = [os.path.join(srv.BIN, c["tool"]), "--cfg", "none", "--noColor", "--servers", servers, "--port", str(ports["default_port"]),
            "--trustAllHosts", "--key", env.key, "--user", "root", "--files", os.path.join(env.dir, "f.log")]
+    if c.get("cpc"):
+        cmd += ["--cpc", str(c["cpc"])]
     p = subprocess.Popen(cmd, stdin=subprocess.DEVNULL, stdout=subprocess.DEVNULL, stderr=subprocess.DEVNULL, env=env.client_env(), cwd=env.dir)
     try:
         p.wait(c["seconds"])
